@@ -176,19 +176,20 @@ pub fn compare_archives<P: AsRef<Path>>(
         filter,
     )?;
 
+    // A file can appear in several difference lists: count names, not list entries
+    let mut differing: std::collections::HashSet<&str> = std::collections::HashSet::new();
+    differing.extend(files.size_differences.iter().map(|d| d.name.as_str()));
+    differing.extend(files.content_differences.iter().map(|n| n.as_str()));
+    differing.extend(files.metadata_differences.iter().map(|d| d.name.as_str()));
+
     // Generate summary
     let summary = ComparisonSummary {
         source_files: metadata.file_count.0,
         target_files: metadata.file_count.1,
         source_only_count: files.source_only.len(),
         target_only_count: files.target_only.len(),
-        different_files: files.size_differences.len()
-            + files.content_differences.len()
-            + files.metadata_differences.len(),
-        identical_files: files.common_files.len()
-            - files.size_differences.len()
-            - files.content_differences.len()
-            - files.metadata_differences.len(),
+        different_files: differing.len(),
+        identical_files: files.common_files.len().saturating_sub(differing.len()),
     };
 
     // Determine if archives are identical
